@@ -17,12 +17,38 @@ from typing import Any, Dict, List, Optional, Tuple
 GROUP_S = ["a", "b", "c"]
 
 
+N_SHAPES = 5  # 0-3: wide tables with optional columns; 4: a table of block records (see gen_block_table)
+
+
+def pick_shape(rd) -> int:
+    return rd.choice([0, 1, 2, 3, 0, 1, 2, 3, 4])
+
+
+def gen_block_table(rd, name: str, n_rows: Optional[int] = None, labels: Optional[List[str]] = None) -> Dict[str, Any]:
+    """a table holding block records (cdata): one row per (id, measure) with complete blocks, physical rows shuffled;
+    "blocks" tells gen_pipeline how to fold it into row records with convert_records"""
+    drawn = rd.choice([["a", "b"], ["a", "b"], ["a", "b", "c"], ["hi", "lo"]])
+    labels = list(labels) if labels is not None else drawn  # a second batch of data for the same table keeps the labels
+    nrec = rd.choice([0, 1, 2, 3, 4, 5, 6]) if n_rows is None else n_rows // len(labels)
+    ids = rd.sample(range(1, max(40, 3 * nrec + 1)), nrec)
+    null_rate = rd.choice([0.0, 0.15, 0.3])
+    rows = [(i, m, None if rd.random() < null_rate else rd.randrange(-8, 41) / 4.0) for i in ids for m in labels]
+    rd.shuffle(rows)
+    cols = [{"name": "id", "kind": "igroup", "values": [r_[0] for r_ in rows]},
+            {"name": "m", "kind": "group", "values": [r_[1] for r_ in rows]},
+            {"name": "val", "kind": "float", "values": [r_[2] for r_ in rows]}]
+    return {"name": name, "cols": cols,
+            "blocks": {"keys": ["id"], "measure": "m", "value": "val", "labels": labels, "cols": ["v_" + m for m in labels]}}
+
+
 def gen_table(rd, name: str, n_rows: Optional[int] = None, shape: Optional[int] = None) -> Dict[str, Any]:
+    shape = shape if shape is not None else pick_shape(rd)
+    if shape == 4:
+        return gen_block_table(rd, name, n_rows)
     n = n_rows if n_rows is not None else rd.choice([0, 1, 2, 3, 4, 5, 6, 8, 10, 12])
     if n_rows is None and rd.random() < 0.05:
         n = rd.choice([40, 100])  # beyond any "small table" fast path or sample size
     wide_ids = n > 38
-    shape = shape if shape is not None else rd.randrange(4)
     ids = rd.sample(range(1, max(400, 3 * n) if wide_ids else 40), n)
     cols = [{"name": "id", "kind": "key", "values": ids}]
     cols.append({"name": "g", "kind": "group", "values": [rd.choice(GROUP_S[: rd.choice([1, 2, 3])]) for _ in range(n)]})
@@ -68,7 +94,10 @@ def gen_twin_table(rd, base, name: str) -> Dict[str, Any]:
         elif c["kind"] == "int":
             vals = [None if rd.random() < 0.3 else rd.randrange(-5, 21) for _ in range(n)]
         cols.append({"name": c["name"], "kind": c["kind"], "values": vals})
-    return {"name": name, "cols": cols}
+    out = {"name": name, "cols": cols}
+    if "blocks" in base:
+        out["blocks"] = base["blocks"]
+    return out
 
 
 def table_columns(t) -> Dict[str, str]:
@@ -204,7 +233,7 @@ def gen_steps(r, cols: Dict[str, str], tables: Dict[str, Dict[str, str]], max_st
     est = [max(1, est0)]  # upper bound on the number of rows flowing out of the steps generated so far
     kinds_all = allow or ["extend", "extend", "wextend", "wextend", "owextend", "owextend", "project", "select_rows",
                           "select_columns", "drop_columns", "rename_columns", "map_columns", "order_rows", "order_limit",
-                          "natural_join", "natural_join", "concat_rows", "selfjoin_summary"]
+                          "natural_join", "natural_join", "concat_rows", "selfjoin_summary", "convert_records"]
     n_steps = r.randint(1, max_steps)
     tries = 0
     while len(steps) < n_steps and tries < 40:
@@ -561,6 +590,38 @@ def gen_steps(r, cols: Dict[str, str], tables: Dict[str, Dict[str, str]], max_st
             expr = "_size()" if fn == "size" else f"{v}.{fn}()"
             steps.append({"t": "selfjoin_summary", "by": by, "ops": {new: expr}, "jointype": r.choice(["LEFT", "INNER"])})
             cols[new] = "nn" if fn == "size" else "float"
+        elif kind == "convert_records" and depth == 0 and keys and len([c for c in nums if c not in keys]) >= 2:
+            # record transform (cdata): every row record becomes a block of len(vals) rows (measure name, value), keyed
+            # by the unique key (and optionally a group column); half of the time the inverse map follows at once and
+            # folds the complete blocks back into rows
+            cand = [c for c in nums if c not in keys]
+            same = [c for c in cand if cols[c] == cols[cand[0]]]
+            vals = sorted(r.sample(same, 2)) if (len(same) >= 2 and r.random() < 0.7) else sorted(r.sample(cand, r.choice([2, 2, 3]) if len(cand) > 2 else 2))
+            if est[0] * len(vals) > MAX_EST_ROWS:
+                continue
+            rkeys = [keys[0]]
+            gplain = [c for c in groups]
+            if gplain and r.random() < 0.4:
+                rkeys.append(r.choice(gplain))
+            mcol = _fresh(cols, "m")
+            vcol = _fresh({**cols, mcol: "group"}, "val")
+            labels = ["m_" + c for c in vals]
+            if r.random() < 0.15:
+                labels[0] = r.choice(["M", " m", "o'k", "\u00e9"])
+            st = {"t": "convert_records", "dir": "out", "keys": rkeys, "measure": mcol, "value": vcol, "labels": labels, "cols": vals}
+            steps.append(st)
+            before = dict(cols)
+            est[0] = est[0] * len(vals)
+            vk = "float" if any(cols[c] == "float" for c in vals) else ("int" if any(cols[c] == "int" for c in vals) else "nn")
+            cols = {c: ("igroup" if cols[c] == "key" else cols[c]) for c in rkeys}
+            cols[mcol] = "group"
+            cols[vcol] = vk
+            if r.random() < 0.5:
+                steps.append(dict(st, dir="in"))
+                est[0] = max(1, est[0] // len(vals))
+                cols = {c: before[c] for c in rkeys}
+                for c in vals:
+                    cols[c] = before[c]
         elif kind == "concat_rows" and depth == 0 and tables:
             tn = r.choice(sorted(tables))
             rcols0 = tables[tn]
@@ -591,7 +652,17 @@ def gen_pipeline(r, tables: Dict[str, Dict[str, Any]], max_steps: int = 7, want_
     src = r.choice(sorted(tables))
     others = {n: c for n, c in tcols.items()}
     sizes = {n: table_nrows(t) for n, t in tables.items()}
-    steps, cols = gen_steps(r, tcols[src], others, max_steps, sizes=sizes, est0=sizes[src])
+    head: List[Dict[str, Any]] = []
+    cols0 = tcols[src]
+    bl = tables[src].get("blocks")
+    if bl is not None and r.random() < 0.7:
+        # the source holds block records in whatever physical order the schedule gives them: fold them into row records
+        head = [{"t": "convert_records", "dir": "in", "keys": list(bl["keys"]), "measure": bl["measure"], "value": bl["value"],
+                 "labels": list(bl["labels"]), "cols": list(bl["cols"])}]
+        cols0 = {k: "key" for k in bl["keys"]}
+        cols0.update({c: "float" for c in bl["cols"]})
+    steps, cols = gen_steps(r, cols0, others, max_steps, sizes=sizes, est0=sizes[src])
+    steps = head + steps
     if want_diamond and steps and not any(st["t"] == "selfjoin_summary" for st in steps):
         more, cols2 = gen_steps(r, cols, {}, 1, allow=["selfjoin_summary"])
         steps = steps + more
@@ -652,6 +723,14 @@ def apply_step(ops, st, descrs):
     if t == "concat_rows":
         b = build_pipeline(st["b"], descrs)
         return ops.concat_rows(b=b, id_column=st.get("id_column"))
+    if t == "convert_records":
+        import pandas as pd
+        import data_algebra.cdata as cd
+
+        spec = cd.RecordSpecification(pd.DataFrame({st["measure"]: list(st["labels"]), st["value"]: list(st["cols"])}),
+                                      record_keys=list(st["keys"]), control_table_keys=[st["measure"]])
+        rm = cd.RecordMap(blocks_out=spec) if st["dir"] == "out" else cd.RecordMap(blocks_in=spec)
+        return ops.convert_records(rm)
     raise ValueError(t)
 
 
